@@ -264,12 +264,15 @@ pub fn run(ctx: &Ctx) -> ! {
         rep.eval();
         rep.outcome(&format!("baseline:{}", r.outcome));
         if si <= 1 && !r.violations.is_empty() {
-            rep.machinery_error(format!(
-                "the base schedule does not satisfy the oracle without any crash: {}",
-                r.violations.iter().map(|v| v.key.clone()).collect::<Vec<_>>().join(",")
-            ));
+            // the tree under test does not satisfy the oracle on the base schedule even without a
+            // stop (never so on the unchanged tree). The cuts are still enumerated: what C15
+            // promises after a stop and restart is judged on the runs that have one.
+            rep.extra(
+                if si == 0 { "base_schedule_without_crash_violates" } else { "default_configuration_schedule_without_crash_violates" },
+                json!(r.violations.iter().map(|v| v.key.clone()).collect::<Vec<_>>()),
+            );
         }
-        if !r.violations.is_empty() {
+        if si > 1 && !r.violations.is_empty() {
             // a deviated schedule that does not progress even without a crash says nothing about crashes
             rep.add_extra("schedules_skipped_no_baseline_progress", 1);
             continue;
